@@ -209,7 +209,13 @@ def gen_cases(rng, tier):
                     kds = (True, False) if o["keep"] == "R" else ((True,) if o["keep"] == "T" else (False,))
                     for kd in kds:
                         combos.append((s, ax, kd))
-            combos = rng.sample(combos, min(len(combos), 12 if quick else 120))
+            # vector_norm: exhaustive in the small scope (a listed finding lives here: keys must not depend on the seed)
+            if kind == "var":
+                combos = rng.sample(combos, min(len(combos), 12 if quick else 120))
+            elif not quick:
+                small = [c for c in combos if len(c[0]) <= 3 and max(c[0]) <= 3]
+                rest = [c for c in combos if not (len(c[0]) <= 3 and max(c[0]) <= 3)]
+                combos = small + rng.sample(rest, min(len(rest), 300))
             for s, ax, kd in combos:
                 data = gen_data(rng, o, int(np.prod(s)))
                 groups = reduce_groups(s, norm_axes(ax, len(s)))
@@ -230,8 +236,9 @@ def gen_cases(rng, tier):
                     continue
                 # non-negative axis1/axis2 only: negative ones are not normalised by view::diagonal (C04's operation), which
                 # would mask what trace itself does
+                # ... and offset >= 0 only: view::diagonal reads index -1 for a negative offset (again C04's operation)
                 for a1, a2 in itertools.permutations(range(d), 2):
-                    for off in range(-(s[a1] - 1), s[a2]):
+                    for off in range(0, s[a2]):
                         combos.append((s, off, a1, a2))
             if kind == "trace":
                 combos = rng.sample(combos, min(len(combos), 40 if quick else 600))
@@ -373,7 +380,7 @@ def argclass(o, m):
             parts.append("unsorted")
     else:
         parts.append("-")
-    if o["kind"] in ("reduce", "reduce2", "default", "var", "norm"):
+    if o["kind"] in ("reduce", "reduce2", "default"):
         gs = 1
         for a in set(norm_axes(ax, dim)):
             gs *= m["shape"][a]
